@@ -464,6 +464,21 @@ RANGE = 'R'      # outside the exactly-modelled range
 NOPARSE = 'X'    # text not in the language of the reference evaluator
 
 
+def _literals_exact(toks):
+    """False if some real literal of the text is not a small dyadic rational: its binary value would
+    depend on the literal's kind (REAL(4) in Fortran, double in C), so compilers are not asked."""
+    for k, v in toks or ():
+        if k == 'real':
+            try:
+                f = exprsem.parse_real_literal(v)
+            except (ValueError, ZeroDivisionError):
+                return False
+            d = f.denominator
+            if d & (d - 1) or d.bit_length() > _EXACT_BITS or abs(f.numerator).bit_length() > _EXACT_BITS:
+                return False
+    return True
+
+
 def guarded(fn, *args):
     """-> (value | UNDEF | RANGE | NOPARSE, exact: bool)"""
     Guard.install()
@@ -529,6 +544,7 @@ class FText:
         except exprsem.Unsupported:
             self.toks = None
         self.nonstd = False
+        self.lits_exact = _literals_exact(self.toks)
         if self.toks is not None:
             p = _FParserX(self.toks, exprsem._AnyEnv(), True)   # pylint: disable=protected-access
             try:
@@ -543,7 +559,8 @@ class FText:
         return _FParserX(self.toks, env, True).parse()
 
     def value(self, env):
-        return guarded(self._ev, env)
+        v, ex = guarded(self._ev, env)
+        return v, ex and self.lits_exact
 
 
 class _CParserX(exprsem._CParser):      # pylint: disable=protected-access
@@ -608,6 +625,7 @@ class CText:
             self.toks = c_tokenize_mm(text)
         except exprsem.Unsupported:
             self.toks = None
+        self.lits_exact = _literals_exact(self.toks)
 
     def _ev(self, env):
         if self.toks is None:
@@ -615,7 +633,8 @@ class CText:
         return _CParserX(self.toks, env).parse()
 
     def value(self, env):
-        return guarded(self._ev, env)
+        v, ex = guarded(self._ev, env)
+        return v, ex and self.lits_exact
 
 
 def same_value(a, b):
@@ -703,19 +722,34 @@ def shrink_candidates(s, cfg=None):
     for path, sub in pos:
         if sub[0] == 'l' and path:
             T = sub[1]
-            if not _role_ok(s, path, ['v', T, 0]):
-                # exponent of a real power: only the canonical literal
-                if sub[2] != lits[T][0]:
-                    yield replace_at(s, path, ['l', T, lits[T][0]])
-                continue
+            if _role_ok(s, path, ['v', T, 0]):
+                fv = _fresh_var(s, T)
+                if fv is not None:
+                    yield replace_at(s, path, fv)
+                for (t, k) in variables(s):
+                    if t == T:
+                        yield replace_at(s, path, ['v', T, k])
+            # (the exponent of a real power stays a literal)  literals: towards the alphabet, in its order
+            for v in lits[T]:
+                if v != sub[2]:
+                    yield replace_at(s, path, ['l', T, v])
+    # all occurrences of one literal at once (a relation between two occurrences may be what fails)
+    litpos = {}
+    for path, sub in pos:
+        if sub[0] == 'l' and path and _role_ok(s, path, ['v', sub[1], 0]):
+            litpos.setdefault((sub[1], sub[2] if not isinstance(sub[2], bool) else str(sub[2])), []).append(path)
+    for (T, _v), paths in litpos.items():
+        if len(paths) > 1:
+            opts = []
             fv = _fresh_var(s, T)
             if fv is not None:
-                yield replace_at(s, path, fv)
-            for (t, k) in variables(s):
-                if t == T:
-                    yield replace_at(s, path, ['v', T, k])
-            if sub[2] != lits[T][0]:
-                yield replace_at(s, path, ['l', T, lits[T][0]])
+                opts.append(fv)
+            opts += [['v', t, k] for (t, k) in variables(s) if t == T]
+            for o in opts:
+                c = s
+                for pth in paths:
+                    c = replace_at(c, pth, o)
+                yield c
     seen_vars = set()
     for path, sub in pos:
         if sub[0] == 'v':
